@@ -50,18 +50,27 @@ def coq_svc_of(info):
 
 
 class NodeRecorder:
-    def __init__(self, sim, host):
-        self.sim, self.host, self.zc = sim, host, host.zc
+    def __init__(self, sim, host=None):
+        self.sim, self.host, self.zc = sim, host, (host.zc if host is not None else None)
         self.labels, self.obs = [], []
         self.cur = None
         self.next_id = 0
         self.sends = []          # (ms, dest, out) of everything actually transmitted through async_send
         self._undo = []
         self._draws = {}
+        self.active = True
+        self.front = False       # byte-level mode (coq/Model/Front.v): datagrams and TC timers are the labels, node labels are wrapped in FNode
+        self.in_dgram = False
+        self.escaped = []        # exceptions that left datagram_received / a TC timer
 
     # ---- label bookkeeping ----
     def begin(self, label):
+        if not self.active:          # a timer armed while the hooks were installed fires after uninstall(): not part of the recorded run
+            self.cur = []
+            return
         self.cur = []
+        if self.front and label.startswith('L'):
+            label = f"FNode ({label})"
         self.labels.append(label)
         self.obs.append(self.cur)
 
@@ -80,7 +89,8 @@ class NodeRecorder:
         self._undo.append((cls, name, orig))
 
     # ---- hooks ----
-    def install(self):
+    def install(self, front=False):
+        self.front = front
         import zeroconf._core as zcore
         import zeroconf._engine as zengine
         from zeroconf._handlers.multicast_outgoing_queue import MulticastOutgoingQueue
@@ -88,11 +98,11 @@ class NodeRecorder:
         from zeroconf._handlers.record_manager import RecordManager
         from zeroconf._services.registry import ServiceRegistry
         Z = zcore.Zeroconf
-        rec, zc, sim = self, self.zc, self.sim
+        rec, sim = self, self.sim
 
         def mk_send(orig):
             def async_send(self, out, addr=None, port=5353, v6_flow_scope=(), transport=None):
-                if self is not zc:
+                if self is not rec.zc:
                     return orig(self, out, addr, port, v6_flow_scope, transport)
                 before = len(sim.net.log)
                 orig(self, out, addr, port, v6_flow_scope, transport)
@@ -106,7 +116,7 @@ class NodeRecorder:
 
         def mk_check(orig):
             async def async_check_service(self, info, allow_name_change, cooperating_responders=False, strict=True):
-                if self is not zc:
+                if self is not rec.zc:
                     return await orig(self, info, allow_name_change, cooperating_responders, strict)
                 rid = REG.get()
                 rec.begin(f"LRegister {cz(rid)} {cz(sim.now)} {coq_svc_of(info)} {cbool(allow_name_change)} {cbool(strict)} {cbool(cooperating_responders)}")
@@ -121,7 +131,7 @@ class NodeRecorder:
 
         def mk_wait(orig):
             async def async_wait(self, timeout):
-                if self is not zc or REG.get() is None:
+                if self is not rec.zc or REG.get() is None:
                     return await orig(self, timeout)
                 rid = REG.get()
                 rec.out([2, cachesim.as_int(timeout)])
@@ -133,7 +143,7 @@ class NodeRecorder:
         def mk_regadd(name):
             def mk(orig):
                 def f(self, info):
-                    if self is not zc.registry:
+                    if rec.zc is None or self is not rec.zc.registry:
                         return orig(self, info)
                     try:
                         orig(self, info)
@@ -148,7 +158,7 @@ class NodeRecorder:
 
         def mk_bcast(orig):
             async def _async_broadcast_service(self, info, interval, ttl, broadcast_addresses=True):
-                if self is not zc:
+                if self is not rec.zc:
                     return await orig(self, info, interval, ttl, broadcast_addresses)
                 rid = REG.get()
                 rec.begin(f"LBcast {cz(rid)} {cz(sim.now)}")
@@ -176,7 +186,7 @@ class NodeRecorder:
 
         def mk_unreg(orig):
             async def async_unregister_service(self, info):
-                if self is not zc:
+                if self is not rec.zc:
                     return await orig(self, info)
                 tid = rec.new_id()
                 tok = REG.set(tid)
@@ -193,7 +203,7 @@ class NodeRecorder:
 
         def mk_remove_answers(orig):
             def async_remove_answers(self, answers):
-                if self is zc.out_queue:
+                if rec.zc is not None and self is rec.zc.out_queue:
                     rec._withdrawn = list(answers)
                 return orig(self, answers)
             return async_remove_answers
@@ -202,7 +212,7 @@ class NodeRecorder:
 
         def mk_update(orig):
             async def async_update_service(self, info):
-                if self is not zc:
+                if self is not rec.zc:
                     return await orig(self, info)
                 tid = rec.new_id()
                 tok = REG.set(tid)
@@ -216,7 +226,7 @@ class NodeRecorder:
 
         def mk_unreg_all(orig):
             async def async_unregister_all_services(self):
-                if self is not zc:
+                if self is not rec.zc:
                     return await orig(self)
                 tok = REG.set('all')
                 rec.begin(f"LUnregisterAll {cz(sim.now)}")
@@ -232,7 +242,7 @@ class NodeRecorder:
 
         def mk_close(orig):
             def _close(self):
-                if self is zc and not self.done:
+                if self is rec.zc and not self.done:
                     rec.begin(f"LClose {cz(sim.now)}")
                 return orig(self)
             return _close
@@ -240,11 +250,13 @@ class NodeRecorder:
 
         def mk_query(orig):
             def handle_assembled_query(self, packets, addr, port, transport, v6_flow_scope):
-                if self.zc is not zc:
+                if self.zc is not rec.zc:
                     return orig(self, packets, addr, port, transport, v6_flow_scope)
                 msgs = clist("{| qm_questions := %s; qm_answers := %s; qm_is_probe := %s; qm_now := %s |}" % (
                     clist(coq_rec(rec_of(q)) for q in m.questions), clist(coq_rec(rec_of(r, created=int(m.now))) for r in m.answers()),
                     cbool(m.is_probe()), cz(m.now)) for m in packets)
+                if rec.front and rec.in_dgram:
+                    return orig(self, packets, addr, port, transport, v6_flow_scope)
                 rec._draws = {}
                 idx = len(rec.labels)
                 rec.begin('LQuery')
@@ -258,42 +270,93 @@ class NodeRecorder:
 
         def mk_qadd(orig):
             def async_add(self, now, answers):
-                if self.zc is not zc:
+                if self.zc is not rec.zc:
                     return orig(self, now, answers)
                 mark = len(sim.random_log)
                 orig(self, now, answers)
                 d = [v for (_, site, v) in sim.random_log[mark:] if site == 'mcast_delay']
-                rec._draws['qd' if self is zc.out_delay_queue else 'q'] = d[0] if d else 0
+                rec._draws['qd' if self is rec.zc.out_delay_queue else 'q'] = d[0] if d else 0
             return async_add
         self._patch(MulticastOutgoingQueue, 'async_add', mk_qadd)
 
         def mk_ready(orig):
             def async_ready(self):
-                if self.zc is not zc:
+                if self.zc is not rec.zc:
                     return orig(self)
-                rec.begin(f"LReady {cbool(self is zc.out_delay_queue)} {cz(sim.now)}")
+                rec.begin(f"LReady {cbool(self is rec.zc.out_delay_queue)} {cz(sim.now)}")
                 return orig(self)
             return async_ready
         self._patch(MulticastOutgoingQueue, 'async_ready', mk_ready)
 
         def mk_resp(orig):
             def async_updates_from_response(self, msg):
-                if self.zc is zc:
+                if self.zc is rec.zc and not (rec.front and rec.in_dgram):
                     rec.begin(f"LResp {cz(msg.now)} {clist(coq_rec(rec_of(r, created=int(msg.now))) for r in msg.answers())}")
                 return orig(self, msg)
             return async_updates_from_response
         self._patch(RecordManager, 'async_updates_from_response', mk_resp)
 
+        from zeroconf._listener import AsyncListener
+
+        def finish_front(idx, head, mark):
+            tc = [v for (_, site, v) in sim.random_log[mark:] if site == 'tc_delay']
+            return f"{head} {cz(tc[0] if tc else 0)} {cz(rec._draws.get('q', 0))} {cz(rec._draws.get('qd', 0))}"
+
+        def mk_dgram(orig):
+            def datagram_received(self, data, addrs):
+                if self.zc is not rec.zc or not rec.front:
+                    return orig(self, data, addrs)
+                idx = len(rec.labels)
+                rec.begin('FDatagram')
+                rec._draws = {}
+                mark = len(sim.random_log)
+                rec.in_dgram = True
+                try:
+                    orig(self, data, addrs)
+                except Exception as e:  # noqa: BLE001  (it would have reached the event loop's exception handler)
+                    rec.out([3, EXN.get(type(e).__name__, 99)])
+                    rec.escaped.append((sim.now, repr(e)))
+                finally:
+                    rec.in_dgram = False
+                    rec.labels[idx] = finish_front(idx, f"FDatagram {ctext(bytes(data))} {ctext(addrs[0])} {cz(addrs[1])} {cz(sim.now)}", mark)
+            return datagram_received
+        self._patch(AsyncListener, 'datagram_received', mk_dgram)
+
+        def mk_respond(orig):
+            def _respond_query(self, msg, addr, port, transport, v6_flow_scope):
+                if self.zc is not rec.zc or not rec.front or msg is not None:
+                    return orig(self, msg, addr, port, transport, v6_flow_scope)
+                idx = len(rec.labels)
+                rec.begin('FTimer')
+                rec._draws = {}
+                rec.in_dgram = True
+                try:
+                    orig(self, msg, addr, port, transport, v6_flow_scope)
+                except Exception as e:  # noqa: BLE001
+                    rec.out([3, EXN.get(type(e).__name__, 99)])
+                    rec.escaped.append((sim.now, repr(e)))
+                finally:
+                    rec.in_dgram = False
+                    rec.labels[idx] = (f"FTimer {ctext(addr)} {cz(port)} {cz(sim.now)} {cz(rec._draws.get('q', 0))} {cz(rec._draws.get('qd', 0))}")
+            return _respond_query
+        self._patch(AsyncListener, '_respond_query', mk_respond)
+
         def mk_cleanup(orig):
             def _async_cache_cleanup(self):
-                if self.zc is zc:
+                if self.zc is rec.zc:
                     rec.begin(f"LPurge {cz(sim.now)}")
                 return orig(self)
             return _async_cache_cleanup
         self._patch(zengine.AsyncEngine, '_async_cache_cleanup', mk_cleanup)
         return self
 
+    def attach(self, host):
+        """hooks installed before the instance exists (so that timers armed at start-up already run through them) start logging here"""
+        self.host, self.zc = host, host.zc
+        return self
+
     def uninstall(self):
+        self.active = False
         for cls, name, orig in reversed(self._undo):
             setattr(cls, name, orig)
         self._undo = []
@@ -314,6 +377,9 @@ class NodeRecorder:
             await fut
             return ('ok', None)
         return rid, asyncio.ensure_future(go())
+
+    def cache_dump(self):
+        return c03.vset([cachesim.vrec(r) for bucket in self.zc.cache.cache.values() for r in bucket.values()])
 
     def cases(self):
         """(coq input, expected val) for Corr.Node.node_run"""
